@@ -289,6 +289,250 @@ theorem C08_trace (sha1 : Bytes → Bytes) (s : HState) (halive : s.alive = true
     (fun st t inp t' o e hR h => step08_sound sha1 _ _ st t inp t' o e hR h) script
     { validated := false, expected := s.peerId, alive := true } s ⟨halive.symm, hfresh.symm, rfl, rfl, rfl⟩
 
+/-! ### Nothing about our pieces before the handshake: completion broadcasts -/
+
+def noHaveOut (o : List HOut) : Prop := ∀ j, HOut.write (Msg.haveP j) ∉ o
+
+theorem sendRequest_choked (s : HState) : (sendRequest s).1.choked = s.choked ∧ noHaveOut (sendRequest s).2 := by
+  unfold sendRequest
+  split
+  · split
+    · exact ⟨rfl, fun j hj => by simp at hj⟩
+    · exact ⟨rfl, fun j hj => by simp at hj⟩
+  · exact ⟨rfl, fun j hj => by simp at hj⟩
+
+theorem newPieceRequest_choked (s : HState) (b : Bool) (rd : ReqData) :
+    (newPieceRequest s b rd).1.choked = s.choked ∧ noHaveOut (newPieceRequest s b rd).2 := by
+  unfold newPieceRequest
+  simp only
+  have h1 := sendRequest_choked { s with pieceRx := some (newRx rd) }
+  have h2 := sendRequest_choked (sendRequest { s with pieceRx := some (newRx rd) }).1
+  refine ⟨by rw [h2.1, h1.1], ?_⟩
+  intro j hj
+  simp only [List.mem_append] at hj
+  rcases hj with (hj | hj) | hj
+  · cases b <;> simp at hj
+  · exact h1.2 j hj
+  · exact h2.2 j hj
+
+theorem pieceFinishReply_choked (s : HState) (rep : Rep) (s2 : HState) (o2 : List HOut) (b : Bool)
+    (h : pieceFinishReply s rep = some (s2, o2, b)) : s2.choked = s.choked ∧ noHaveOut o2 := by
+  unfold pieceFinishReply at h
+  cases rep with
+  | req rd wi =>
+    cases wi with
+    | false =>
+      simp only [Option.some.injEq, Prod.mk.injEq] at h
+      obtain ⟨rfl, rfl, _⟩ := h
+      exact newPieceRequest_choked s false rd
+    | true => cases h
+  | sendNotInterested =>
+    simp only [Option.some.injEq, Prod.mk.injEq] at h
+    obtain ⟨rfl, rfl, _⟩ := h
+    exact ⟨rfl, fun j hj => by simp at hj⟩
+  | prepareKill =>
+    simp only [Option.some.injEq, Prod.mk.injEq] at h
+    obtain ⟨rfl, rfl, _⟩ := h
+    exact ⟨rfl, fun j hj => by simp at hj⟩
+  | ignore =>
+    simp only [Option.some.injEq, Prod.mk.injEq] at h
+    obtain ⟨rfl, rfl, _⟩ := h
+    exact ⟨rfl, fun j hj => by simp at hj⟩
+  | bitfield _ => cases h
+  | sendInterested => cases h
+  | state _ _ => cases h
+  | load _ _ => cases h
+  | none => cases h
+
+/-- A completion broadcast never changes whether the peer chokes us, and while it does, no `Have` is written (it is
+    buffered). -/
+theorem bcHave_choked (sha1 : Bytes → Bytes) (d : Bytes → Option Bytes) (s : HState) (ha : s.alive = true) (i : Nat)
+    (rep : Rep) (s' : HState) (o : List HOut) (e : Option Bool) (h : hstep sha1 d s (.bcHave i rep) = some (s', o, e)) :
+    s'.choked = s.choked ∧ (s.choked = true → noHaveOut o) := by
+  have hg : (!s.alive) = false := by simp [ha]
+  simp only [hstep, hg, Bool.false_eq_true, if_false] at h
+  have fin : ∀ (r : Option (HState × List HOut)), (∀ s1 o1, r = some (s1, o1) → s1.choked = s.choked ∧ noHaveOut o1) →
+      (match r with
+        | none => (none : Option HRes)
+        | some (s1, o1) =>
+          if s1.choked = true then some ({ s1 with msgBuff := s1.msgBuff ++ [i] }, o1, none)
+          else some (s1, o1 ++ [HOut.write (Msg.haveP i)], none)) = some (s', o, e) →
+      s'.choked = s.choked ∧ (s.choked = true → noHaveOut o) := by
+    intro r hr hm
+    cases r with
+    | none => cases hm
+    | some p =>
+      obtain ⟨s1, o1⟩ := p
+      obtain ⟨hc, hno⟩ := hr s1 o1 rfl
+      simp only at hm
+      split at hm
+      · simp only [Option.some.injEq, Prod.mk.injEq] at hm
+        obtain ⟨rfl, rfl, _⟩ := hm
+        exact ⟨hc, fun _ => hno⟩
+      · rename_i hnc
+        simp only [Option.some.injEq, Prod.mk.injEq] at hm
+        obtain ⟨rfl, rfl, _⟩ := hm
+        refine ⟨hc, fun hch => ?_⟩
+        rw [hc] at hnc
+        exact absurd hch hnc
+  cases hrx : s.pieceRx with
+  | none => rw [hrx] at h; exact fin (some (s, [])) (fun s1 o1 e => by cases e; exact ⟨rfl, fun j hj => by simp at hj⟩) h
+  | some rx =>
+    rw [hrx] at h
+    simp only at h
+    by_cases hi : rx.index = i
+    · simp only [hi, if_true] at h
+      cases hpf : pieceFinishReply { s with pieceRx := none } rep with
+      | none => rw [hpf] at h; cases h
+      | some t =>
+        obtain ⟨s2, o2, b2⟩ := t
+        rw [hpf] at h
+        refine fin (some (s2, _)) (fun s1 o1 e => ?_) h
+        cases e
+        obtain ⟨h1, h2⟩ := pieceFinishReply_choked _ _ _ _ _ hpf
+        refine ⟨h1, ?_⟩
+        intro j hj
+        simp only [List.mem_append, List.mem_map, List.mem_singleton] at hj
+        rcases hj with (⟨bl, _, hbl⟩ | hj) | hj
+        · cases hbl
+        · cases hj
+        · exact h2 j hj
+    · simp only [hi, if_false] at h
+      exact fin (some (s, [])) (fun s1 o1 e => by cases e; exact ⟨rfl, fun j hj => by simp at hj⟩) h
+
+theorem noHaveOut_obs (sha1 : Bytes → Bytes) (o : List HOut) (h : noHaveOut o) :
+    (o.filterMap (obsOf sha1)).any isHaveWrite = false := by
+  induction o with
+  | nil => rfl
+  | cons x xs ih =>
+    have hx : noHaveOut xs := fun j hj => h j (List.mem_cons_of_mem _ hj)
+    have ih' := ih hx
+    cases x with
+    | write m =>
+      cases m with
+      | haveP j => exact absurd (List.mem_cons_self) (h j)
+      | _ => simpa [obsOf, isHaveWrite] using ih'
+    | cmd c => simpa [obsOf, isHaveWrite] using ih'
+    | save hh dd => simpa [obsOf, isHaveWrite] using ih'
+    | load hh => simpa [obsOf] using ih'
+
+theorem step08c_keeps_validated (infoHash ownId : Bytes) (st st' : M08) (inp : TIn) (obs : List Obs) (e : Option Bool)
+    (hv : st.validated = true) (h : step08c infoHash ownId st inp obs e = some st') : st'.validated = true := by
+  unfold step08c at h
+  repeat' split at h
+  all_goals (cases h <;> first | rfl | exact hv)
+
+/-- The relation of the extended monitor: `R08`, and a live task whose handshake is still outstanding is (still) choked
+    by the peer — the initial state, which only a frame handled after the handshake can change. -/
+def R08h (infoHash ownId : Bytes) (st : M08) (s : HState) : Prop :=
+  R08 infoHash ownId st s ∧ (s.alive = true → s.hsDone = false → s.choked = true)
+
+theorem step08h_sound (sha1 : Bytes → Bytes) (infoHash ownId : Bytes) (st : M08) (s : HState) (inp : TIn)
+    (s' : HState) (o : List HOut) (e : Option Bool) (hR : R08h infoHash ownId st s)
+    (h : tstep sha1 s inp = some (s', o, e)) :
+    ∃ st', step08h infoHash ownId st (inp, o.filterMap (obsOf sha1), e) = some st' ∧ R08h infoHash ownId st' s' := by
+  obtain ⟨hR0, hC⟩ := hR
+  obtain ⟨st', h1, hR1⟩ := step08_sound sha1 infoHash ownId st s inp s' o e hR0 h
+  obtain ⟨hRa, hRv, _, _, _⟩ := hR0
+  -- the invariant after the step
+  have hinv : s'.alive = true → s'.hsDone = false → s'.choked = true := by
+    intro ha' hd'
+    cases ha : s.alive with
+    | false => rw [tstep_dead sha1 s ha inp] at h; cases h; rw [ha] at ha'; cases ha'
+    | true =>
+      have hg : (!s.alive) = false := by simp [ha]
+      cases inp with
+      | start rep =>
+        simp only [tstep, hstart, hg, Bool.false_eq_true, if_false] at h
+        split at h
+        · split at h
+          · cases h; exact hC ha hd'
+          · cases h
+        · cases h; exact hC ha hd'
+      | frame m rep dk =>
+        simp only [tstep, hstep, hg, Bool.false_eq_true, if_false] at h
+        cases hf : handleFrame sha1 (diskOf dk) s m rep with
+        | none => rw [hf] at h; cases h
+        | some res =>
+          obtain ⟨s1, o1, c⟩ := res
+          rw [hf] at h
+          cases c with
+          | endNormal => simp only [terminate, Option.some.injEq, Prod.mk.injEq] at h; rw [← h.1] at ha'; cases ha'
+          | endError => simp only [terminate, Option.some.injEq, Prod.mk.injEq] at h; rw [← h.1] at ha'; cases ha'
+          | go =>
+            simp only [Option.some.injEq, Prod.mk.injEq] at h
+            obtain ⟨rfl, _, _⟩ := h
+            unfold handleFrame at hf
+            simp only at hf
+            cases hsd : s.hsDone with
+            | false =>
+              cases hm : isHandshake m with
+              | false => simp [hsd, hm] at hf
+              | true =>
+                cases m with
+                | handshake ih pid =>
+                  simp only [isHandshake, Bool.not_true, Bool.and_false, Bool.false_eq_true, if_false, dispatch] at hf
+                  rcases onHandshake_cases _ ih pid rep s1 o1 .go hf with
+                    ⟨_, _, _, hc⟩ | ⟨_, _, rfl, _, _⟩ | ⟨_, _, rfl, _, _⟩
+                  · cases hc
+                  · simp at hd'
+                  · simp at hd'
+                | _ => simp [isHandshake] at hm
+            | true =>
+              -- the handshake was done before: it stays done
+              have : st'.validated = true := by
+                have hv : st.validated = true := by rw [hRv]; exact hsd
+                have hsa : (!st.alive) = false := by rw [hRa]; exact hg
+                unfold step08 at h1
+                rw [if_neg (by simp [hsa])] at h1
+                exact step08c_keeps_validated infoHash ownId st st' _ _ _ hv h1
+              rw [hR1.2.1] at this
+              rw [this] at hd'; cases hd'
+      | recvErr => simp only [tstep, hstep, hg, Bool.false_eq_true, if_false, terminate] at h; cases h; cases ha'
+      | eof => simp only [tstep, hstep, hg, Bool.false_eq_true, if_false, terminate] at h; cases h; cases ha'
+      | bcHave i rep =>
+        simp only [tstep] at h
+        have hc := (bcHave_choked sha1 _ s ha i rep s' o e h).1
+        have hcore := (hstep_bcHave_core sha1 _ s ha i rep s' o e h).2
+        rw [hc]
+        exact hC ha (by rw [← hcore.2.2.2.2.2.1]; exact hd')
+      | bcState en =>
+        simp only [tstep, hstep, hg, Bool.false_eq_true, if_false] at h
+        split at h <;> cases h <;> exact hC ha hd'
+      | ticks k =>
+        simp only [tstep, ticks_facts s ha, Option.some.injEq, Prod.mk.injEq] at h
+        obtain ⟨rfl, _, _⟩ := h
+        exact hC ha hd'
+  refine ⟨st', ?_, ⟨hR1, hinv⟩⟩
+  unfold step08h
+  -- the additional clause never fires on the model
+  have hclause : (st.alive && !st.validated && isBcHave inp && (o.filterMap (obsOf sha1)).any isHaveWrite) = false := by
+    cases hal : st.alive with
+    | false => simp
+    | true =>
+      cases hv : st.validated with
+      | true => simp
+      | false =>
+        cases inp with
+        | bcHave i rep =>
+          have ha : s.alive = true := by rw [← hRa]; exact hal
+          have hd : s.hsDone = false := by rw [← hRv]; exact hv
+          simp only [tstep] at h
+          have := (bcHave_choked sha1 _ s ha i rep s' o e h).2 (hC ha hd)
+          simp [isBcHave, noHaveOut_obs sha1 o this]
+        | _ => simp [isBcHave]
+  simp only [hclause, Bool.false_eq_true, if_false]
+  exact h1
+
+/-- **Every script (extended monitor)**: in addition to `C08_trace`, no `Have` announcement leaves on a connection —
+    incoming or outgoing — before a handshake has validated on it. -/
+theorem C08_trace_h (sha1 : Bytes → Bytes) (s : HState) (halive : s.alive = true) (hfresh : s.hsDone = false)
+    (hchoked : s.choked = true) (script : List TIn) : P08h s.infoHash s.ownId s.peerId (runTrace sha1 s script) = true :=
+  checkTrace_run sha1 (step08h s.infoHash s.ownId) (R08h s.infoHash s.ownId)
+    (fun st t inp t' o e hR h => step08h_sound sha1 _ _ st t inp t' o e hR h) script
+    { validated := false, expected := s.peerId, alive := true } s
+    ⟨⟨halive.symm, hfresh.symm, rfl, rfl, rfl⟩, fun _ _ => hchoked⟩
+
 /-! ### Non-vacuity (tests): a bitfield before any handshake is refused without a reply -/
 
 example :
